@@ -1536,7 +1536,7 @@ class CacheSetting(Xettings):
         type_str="str",
     )
 
-    ENABLE_COMMANDS_CACHE = Var(
+    ENABLE_COMMANDS_CACHE = Var.with_default(
         default=True,
         doc="Command names in a directory are cached when enabled. "
         "On some platforms it may not be accurate enough "
